@@ -105,6 +105,9 @@ pub enum Case {
     Convert { payload: u16, clone_first: bool },
     Madvise { pages: u8, off: u8, len: u8, advice: u8 },
     Wait { code: u8 },
+    /// An IPv6 socket bound to a scoped (interface-local multicast) address:
+    /// the names a10 reports carry the scope id getsockname(2) reports.
+    ScopedV6 { group: u8, stream_type: bool },
     /// metadata() of files of every type, all fields, against statx(2) on the same object.
     Meta {
         target: u8,
@@ -274,6 +277,7 @@ impl Property for C13 {
             2 => (1u16..5000, any::<bool>()).prop_map(|(payload, clone_first)| Case::Convert { payload, clone_first }),
             2 => (1u8..6, 0u8..6, 0u8..7, 0u8..5).prop_map(|(pages, off, len, advice)| Case::Madvise { pages, off, len, advice }),
             1 => any::<u8>().prop_map(|code| Case::Wait { code }),
+            1 => (any::<u8>(), any::<bool>()).prop_map(|(group, stream_type)| Case::ScopedV6 { group, stream_type }),
             2 => (0u8..5, 0u16..0o1000, 0u16..9000, proptest::option::weighted(0.6, (file_secs(), 0u32..1_000_000_000, file_secs(), prop_oneof![Just(0u32), Just(999_999_999u32), 0u32..1_000_000_000]))).prop_map(|(target, mode, size, times)| Case::Meta { target, mode, size, times }),
             3 => (any::<bool>(), any::<bool>(), 1u16..4000, 0u8..3, proptest::option::weighted(0.5, 0u16..6000)).prop_map(|(dgram, peek, len, pool_log2, file_off)| Case::PoolIo { dgram, peek, len, pool_log2, file_off }),
         ]
@@ -307,6 +311,7 @@ impl Property for C13 {
             Case::Convert { payload, clone_first } => run_convert(&mut real, *payload, *clone_first, &mut classes),
             Case::Madvise { pages, off, len, advice } => run_madvise(&mut real, *pages, *off, *len, *advice, &mut classes),
             Case::Wait { code } => run_wait(&mut real, *code, &mut classes),
+            Case::ScopedV6 { group, stream_type } => run_scoped_v6(&mut real, *group, *stream_type, &mut classes),
             Case::Meta { target, mode, size, times } => run_meta(&mut real, *target, *mode, *size, *times, &mut classes),
             Case::PoolIo { dgram, peek, len, pool_log2, file_off } => run_pool_io(&mut real, *dgram, *peek, *len, *pool_log2, *file_off, &mut classes),
         };
@@ -345,6 +350,7 @@ impl Property for C13 {
             Case::Convert { .. } => "convert",
             Case::Madvise { .. } => "madvise",
             Case::Wait { .. } => "wait",
+            Case::ScopedV6 { .. } => "scoped-v6",
             Case::Meta { .. } => "metadata",
             Case::PoolIo { .. } => "pool-io",
         };
@@ -1999,6 +2005,44 @@ fn run_madvise(real: &mut Real, pages: u8, off: u8, len: u8, advice: u8, classes
     }
     if off > 0 {
         classes.push("offset");
+    }
+    Ok(())
+}
+
+fn run_scoped_v6(real: &mut Real, group: u8, _stream_type: bool, classes: &mut Vec<&'static str>) -> Result<(), String> {
+    let lo = unsafe { libc::if_nametoindex(c"lo".as_ptr()) };
+    if lo == 0 {
+        classes.push("scoped-ipv6-unavailable");
+        return Ok(());
+    }
+    // ff02::/16 is link-local scope multicast: the kernel keeps (and reports)
+    // the interface as sin6_scope_id.
+    let ip = std::net::Ipv6Addr::new(0xff02, 0, 0, 0, 0, 0, 0x0a10, 0x100 + group as u16);
+    let want_bind = std::net::SocketAddrV6::new(ip, 0, 0, lo);
+    let sock = real.block_on(a10::net::socket(real.sq.clone(), Domain::IPV6, Type::DGRAM, None))?.map_err(|e| format!("infra:socket: {e}"))?;
+    match real.block_on(sock.bind(want_bind))? {
+        Ok(()) => {}
+        // No IPv6 / no multicast on this machine: nothing to compare.
+        Err(_) => {
+            classes.push("scoped-ipv6-unavailable");
+            return Ok(());
+        }
+    }
+    classes.push("scoped-ipv6");
+    let fd = sock.as_fd().unwrap().as_raw_fd();
+    let mut st: libc::sockaddr_in6 = unsafe { std::mem::zeroed() };
+    let mut len = size_of::<libc::sockaddr_in6>() as u32;
+    if unsafe { libc::getsockname(fd, (&raw mut st).cast(), &mut len) } != 0 {
+        return Err("infra:getsockname".into());
+    }
+    let want = std::net::SocketAddrV6::new(std::net::Ipv6Addr::from(st.sin6_addr.s6_addr), u16::from_be(st.sin6_port), st.sin6_flowinfo, st.sin6_scope_id);
+    let got6 = real.block_on(sock.local_addr::<std::net::SocketAddrV6>())?.map_err(|e| format!("failure-vs-success:local_addr(scoped v6): {e}"))?;
+    if (got6.ip(), got6.port(), got6.flowinfo(), got6.scope_id()) != (want.ip(), want.port(), want.flowinfo(), want.scope_id()) {
+        return Err(format!("address:local_addr(scoped v6): a10 reports {got6} (flow {}, scope {}), getsockname(2) reports {want} (flow {}, scope {})", got6.flowinfo(), got6.scope_id(), want.flowinfo(), want.scope_id()));
+    }
+    let got = real.block_on(sock.local_addr::<std::net::SocketAddr>())?.map_err(|e| format!("failure-vs-success:local_addr(scoped v6): {e}"))?;
+    if got != std::net::SocketAddr::V6(want) {
+        return Err(format!("address:local_addr(scoped v6, either family): a10 reports {got}, getsockname(2) reports {want}"));
     }
     Ok(())
 }
